@@ -16,10 +16,15 @@ SPELLINGS = ["1", "2.5", "2.5e-3", ".5", "5.", "1e2", "-9", "7.25", "0", "-0.5",
 AFTER = {"last": [], "P": ["~Parameter", "BHT.C 35 : t"], "O": ["~Other", "some text"], "X": ["~Xtra", "KEY. val : k"]}
 
 
+TEXT_INDEX = [False]  # set by a harness (per run) to make the index column a text column
+
+
 def token(i, j, cols):
     """the concrete numeral of cell (i, j): distinct per cell so that displacement is visible"""
     base = SPELLINGS[(i * cols + j) % len(SPELLINGS)]
     if j == 0:
+        if TEXT_INDEX[0]:
+            return ["AA", "BB", "CC", "DD", "EE", "FF", "GG", "HH"][i]
         return str(10 * (i + 1))  # a clean increasing index
     return base
 
@@ -45,7 +50,7 @@ def data_line(name, toks, pcap):
 
 
 def expected_matrix(rows, cols, null=-9.0):
-    m = [[float(token(i, j, cols)) for j in range(cols)] for i in range(rows)]
+    m = [[(token(i, j, cols) if (j == 0 and TEXT_INDEX[0]) else float(token(i, j, cols))) for j in range(cols)] for i in range(rows)]
     out = []
     for j in range(cols):
         col = [m[i][j] for i in range(rows)]
